@@ -37,6 +37,8 @@ pub struct SeqCfg {
     /// alphabet indices i and i + opaque_mod denote the loud/quiet twins of one command and use
     /// the same opaque (0 = off)
     pub opaque_mod: usize,
+    /// vbucket ids to put into the requests (by command index); empty = 0 everywhere
+    pub vbuckets: Vec<u16>,
 }
 
 #[derive(Clone, Debug, PartialEq, Eq, Hash, PartialOrd, Ord)]
@@ -136,7 +138,7 @@ impl<'a> Runner<'a> {
                     ap.tick_secs = Some(d);
                     let obs = Observed::default();
                     let fixed = Cmd::Tick(crate::cmd::Tick::Plus(d));
-                    let ctx = StepCtx { cmd: &fixed, cas: 0, opaque: 0, obs: &obs, before: &[], after: &[] };
+                    let ctx = StepCtx { cmd: &fixed, cas: 0, opaque: 0, obs: &obs, before: &[], after: &[], evicting: false };
                     ap.viols = self.model.step(&ctx);
                     return ap;
                 }
@@ -154,7 +156,11 @@ impl<'a> Runner<'a> {
         };
         let oi = if self.cfg.opaque_mod > 0 { idx % self.cfg.opaque_mod } else { idx };
         let opaque = if self.cfg.opaques.is_empty() { opaque_for(oi) } else { self.cfg.opaques[oi % self.cfg.opaques.len()] };
-        let req = cmd.to_req(cas, opaque).unwrap();
+        let mut req = cmd.to_req(cas, opaque).unwrap();
+        if !self.cfg.vbuckets.is_empty() {
+            // the vbucket id is a reserved request field: whatever it holds, nothing may change
+            req.vbucket = self.cfg.vbuckets[idx % self.cfg.vbuckets.len()];
+        }
         let bytes = req.bytes();
         let before = self.world.dump();
         let usage_before = self.world.usage();
@@ -166,7 +172,7 @@ impl<'a> Runner<'a> {
         let after = self.world.dump();
         let (resps, residue) = wire::split_responses(&out.out);
         let obs = Observed { resps, residue, panic: out.panic.clone(), decode_err: out.decode_err.clone() };
-        let sctx = StepCtx { cmd, cas, opaque, obs: &obs, before: &before, after: &after };
+        let sctx = StepCtx { cmd, cas, opaque, obs: &obs, before: &before, after: &after, evicting: !ap.choice_ns.is_empty() };
         ap.viols = self.model.step(&sctx);
         if out.panic.is_some() || out.decode_err.is_some() {
             ap.pruned = true;
